@@ -10,7 +10,7 @@ import (
 
 func init() {
 	for n, f := range map[string]func(){"VerifC02HexEscapes": VerifC02HexEscapes, "VerifC02Quotes": VerifC02Quotes, "VerifC02Backslashes": VerifC02Backslashes,
-		"VerifC02VerticalTab": VerifC02VerticalTab, "VerifC02FlagGroups": VerifC02FlagGroups, "VerifC02Outermost": VerifC02Outermost, "VerifC02FlagsPrefix": VerifC02FlagsPrefix} {
+		"VerifC02VerticalTab": VerifC02VerticalTab, "VerifC02FlagGroups": VerifC02FlagGroups, "VerifC02Outermost": VerifC02Outermost, "VerifC02FlagsPrefix": VerifC02FlagsPrefix, "VerifC02FlagGroupsShaped": VerifC02FlagGroupsShaped} {
 		vHarnesses[n] = f
 	}
 }
@@ -25,7 +25,7 @@ func isFlagLetter(c byte) bool {
 func pgPlus(t string) bool {
 	depth := 0
 	esc := false
-	st := 0 // 0 text, 1 just after an unescaped '(', 2 inside "(?flags"
+	st := 0 // 0 text, 1 just after an unescaped '(', 2 inside "(?flags", 3 after "(?flags)", 4 at the start of a group body or alternative
 	nflag := 0
 	for i := 0; i < len(t); i++ {
 		c := t[i]
@@ -34,13 +34,24 @@ func pgPlus(t string) bool {
 			st = 0
 			continue
 		}
+		if st == 4 || st == 5 {
+			// a group body or an alternative never starts with a quantifier (the printer escapes literal ?*+),
+			// and the body of a flag group is never empty (an empty expression is printed as `(?:)`)
+			if c == '?' || c == '*' || c == '+' || (st == 5 && c == ')') {
+				return false
+			}
+			st = 0
+		}
 		if st == 2 {
 			if isFlagLetter(c) {
 				nflag++
 				continue
 			}
 			if c == ':' {
-				st = 0
+				st = 4
+				if nflag > 0 {
+					st = 5
+				}
 				continue
 			}
 			if c == ')' && nflag > 0 {
@@ -64,6 +75,9 @@ func pgPlus(t string) bool {
 				nflag = 0
 				continue
 			}
+			if c == '*' || c == '+' {
+				return false
+			}
 		}
 		if c == '\\' {
 			esc = true
@@ -79,8 +93,11 @@ func pgPlus(t string) bool {
 				return false
 			}
 		}
+		if c == '|' {
+			st = 4
+		}
 	}
-	return depth == 0 && !esc && st != 2
+	return depth == 0 && !esc && st != 2 && st != 5
 }
 
 // quotesEscaped: every double quote is preceded by an odd number of backslashes.
@@ -164,6 +181,20 @@ func printableOneLine(o string) bool {
 	return true
 }
 
+// c02Alphabet: every byte comparison in the clean-up passes, in IsEscaped/findGroupBodyEnd and in the predicates of this
+// file is against one of: backslash, parentheses, `?`, `:`, `|`, the flag letters [-misU], the quote, quantifier starts
+// `* + {` and the printable range. Bytes outside that set are interchangeable, so the deeper jobs draw the text from
+// these representatives (`a`, `x`, `5` stand for every other printable byte; `i`, `s`, `-` for the flag letters; `t n f r` and the blank spell the Perl space sequence).
+const c02Alphabet = "()?:|\\\"is-*{ax5tnfr "
+
+// c02Text is the symbolic text of a lemma: all printable ASCII (job parameter alpha = 0) or the representative alphabet.
+func c02Text(max int) string {
+	if vParam("alpha") == 1 {
+		return vNondetStrOf("t", max, c02Alphabet)
+	}
+	return vNondetStrP("t", max)
+}
+
 func newOp() *Operator {
 	return &Operator{lines: []string{}, groupReplacementStringBuilder: &strings.Builder{}}
 }
@@ -180,7 +211,7 @@ func VerifC02HexEscapes() {
 
 // Lemma 2: escapeDoublequotes on printable PG+ text escapes every quote and keeps the shape.
 func VerifC02Quotes() {
-	t := vNondetStrP("t", 14)
+	t := c02Text(14)
 	vAssume(pgPlus(t))
 	out := newOp().escapeDoublequotes(t)
 	vReach("after")
@@ -190,7 +221,7 @@ func VerifC02Quotes() {
 
 // Lemma 3: useHexBackslashes removes every `\\` token and keeps quotes escaped.
 func VerifC02Backslashes() {
-	t := vNondetStrP("t", 14)
+	t := c02Text(14)
 	vAssume(pgPlus(t))
 	vAssume(quotesEscaped(t))
 	out := newOp().useHexBackslashes(t)
@@ -202,7 +233,7 @@ func VerifC02Backslashes() {
 
 // Lemma 4: includeVerticalTabInSpaceClass leaves no Perl space sequence without VT and keeps the invariants.
 func VerifC02VerticalTab() {
-	t := vNondetStrP("t", 14)
+	t := c02Text(14)
 	vAssume(pgPlus(t))
 	vAssume(quotesEscaped(t))
 	vAssume(noPlainBackslash(t))
@@ -216,7 +247,30 @@ func VerifC02VerticalTab() {
 // group and keeps every output invariant that held before (weakest precondition: PG+ only, so the lemma does not
 // depend on the order of the earlier passes).
 func VerifC02FlagGroups() {
-	t := vNondetStrP("t", 14)
+	t := c02Text(14)
+	vAssume(pgPlus(t))
+	mid := newOp().dontUseFlagsForMetaCharacters(t)
+	vReach("after-flags")
+	vAssert(noInlineFlagGroup(mid), "C02 no inline flag group survives")
+	vAssert(printableOneLine(mid) && pgPlus(mid), "C02 dontUseFlagsForMetaCharacters keeps the text printable and printer-shaped")
+	vAssert(!quotesEscaped(t) || quotesEscaped(mid), "C02 dontUseFlagsForMetaCharacters keeps quotes escaped")
+	vAssert(!noPlainBackslash(t) || noPlainBackslash(mid), "C02 dontUseFlagsForMetaCharacters introduces no plain backslash")
+}
+
+// Lemma 5, deeper: text with a given skeleton - free text, an opener that is or only looks like a flag group, free text,
+// a closing parenthesis, free text - so that complete groups (which need 6+ bytes) are covered beyond the length bound
+// of the unconstrained lemma. Openers: (?i:  (?-s:  (?i)  \(?i:  \(?i)  (?:
+func VerifC02FlagGroupsShaped() {
+	openers := []string{"(?i:", "(?-s:", "(?i)", "\\(?i:", "\\(?i)", "(?:"}
+	op := openers[vParam("opener")]
+	p := vNondetStrOf("p", 2, c02Alphabet)
+	b := vNondetStrOf("b", 3, c02Alphabet)
+	q := vNondetStrOf("q", 2, c02Alphabet)
+	t := p + op + b
+	if vParam("close") == 1 {
+		t += ")"
+	}
+	t += q
 	vAssume(pgPlus(t))
 	mid := newOp().dontUseFlagsForMetaCharacters(t)
 	vReach("after-flags")
@@ -227,7 +281,7 @@ func VerifC02FlagGroups() {
 }
 
 func VerifC02Outermost() {
-	t := vNondetStrP("t", 14)
+	t := c02Text(14)
 	vAssume(pgPlus(t))
 	out := newOp().removeOutermostNonCapturingGroup(t)
 	vReach("after")
